@@ -157,7 +157,7 @@ func ioSupported(f ioFmt, d ref.DT) bool {
 }
 
 func c14Case(r *core.Run, f ioFmt, d ref.DT, shape []int, lay, vs string, mbits int) {
-	id := fmt.Sprintf("C14|%s|%s|%s|%s|%s|mask=%d", f.name, d.Name, shapeStr(shape), lay, vs, mbits)
+	id := fmt.Sprintf(propPfx+"C14|%s|%s|%s|%s|%s|mask=%d", f.name, d.Name, shapeStr(shape), lay, vs, mbits)
 	if r.ReplayCase != "" && id != r.ReplayCase {
 		return
 	}
